@@ -135,6 +135,9 @@ def classify_atom(a):
 def is_permutation(v):
     """v is std::iota(0, 1, ...) over a whole vector, possibly sorted afterwards: its elements are
     exactly 0 .. |v|-1"""
+    if isinstance(v, tuple) and v and v[0] == 'vmap' and len(v) == 6:
+        # std::iota spelled as a loop: v[i] = i for every i in [0, |v|)
+        return v[3] == T.ZERO and v[4] == T.size(v[1]) and v[5] == v[2]
     if not (isinstance(v, tuple) and v and v[0] == 'alg' and len(v) >= 4):
         return False
     if v[1] in ('stable_sort', 'sort', 'reverse'):
